@@ -530,11 +530,13 @@ package scipipe
 //@   modifies chan(wf.concurrentTasks), locked
 //@   ensures deposited: chanSentN(wf.concurrentTasks) == old(chanSentN(wf.concurrentTasks)) + ite(slots > 0, slots, 0)
 //@   ensures no-withdrawal: chanRecvA(wf.concurrentTasks) == old(chanRecvA(wf.concurrentTasks))
-//@   ensures mutex-released[C07]: !locked[wf.concurrentTasksMx]
-//@   atsend under-mutex[C07]: locked[wf.concurrentTasksMx] && $ch == wf.concurrentTasks
+// (C05: that a task takes all its slots in one critical section is a lemma the termination argument of Run needs: two
+// multi-core tasks that each hold part of their slots would wait for each other for ever)
+//@   ensures mutex-released[C05,C07]: !locked[wf.concurrentTasksMx]
+//@   atsend under-mutex[C05,C07]: locked[wf.concurrentTasksMx] && $ch == wf.concurrentTasks
 //@   loop 0 invariant count: i >= 0 && (i <= slots || i == 0) && chanSentN(wf.concurrentTasks) == old(chanSentN(wf.concurrentTasks)) + i
 //@   loop 0 invariant no-withdrawal: chanRecvA(wf.concurrentTasks) == old(chanRecvA(wf.concurrentTasks))
-//@   loop 0 invariant mutex-held: locked[wf.concurrentTasksMx]
+//@   loop 0 invariant mutex-held[C05,C06,C07]: locked[wf.concurrentTasksMx]
 
 //@ func (*Workflow).DecConcurrentTasks(wf, slots)
 //@   props C06 C07
